@@ -36,6 +36,24 @@ def check(chk: Check) -> None:
                         'deterministic host callbacks (run-time assumption)']
     chk.assumptions += ['host callbacks are deterministic', 'CPython evaluates statements in program order']
 
+    rootq = om.ROOT + '.eval'
+    charge_rules(chk, R1, R3)
+
+    # ------------------------------------------------------------------- R2
+    common.every_node_is_an_op(chk, R2)
+
+    # ------------------------------------------------------------------- R4
+    _r4(chk, R4)
+    # ------------------------------------------------------------------- R5
+    _r5(chk, R5, rootq)
+    # --------------------------------------------------------------- R6 / R7
+    common.lambda_bodies_charged(chk, R6)
+    common.state_does_not_escape(chk, R7)
+
+
+def charge_rules(chk: Check, R1: str, R3: str) -> None:
+    """Charge-first (R1) and exact threshold (R3) for every node kind."""
+    F = chk.facts
     classes = om.op_classes(F)
     rootq = om.ROOT + '.eval'
     limit_classes = [q for q in F.subclasses(om.PARSER_ERROR) if q != om.PARSER_ERROR]
@@ -124,17 +142,6 @@ def check(chk: Check) -> None:
         other.append('no path returns normally')
     chk.require(not other, R3, om.ROOT + '.eval has no other effect', F.func(rootq).where,
                 'extra effects: %s' % ', '.join(sorted(set(other))) if other else 'straight-line charge-and-compare')
-
-    # ------------------------------------------------------------------- R2
-    common.every_node_is_an_op(chk, R2)
-
-    # ------------------------------------------------------------------- R4
-    _r4(chk, R4)
-    # ------------------------------------------------------------------- R5
-    _r5(chk, R5, rootq)
-    # --------------------------------------------------------------- R6 / R7
-    common.lambda_bodies_charged(chk, R6)
-    common.state_does_not_escape(chk, R7)
 
 
 def _pathdesc(p) -> str:
